@@ -177,9 +177,11 @@ def gen_shutdown_overlap():
     for name, base, t in states:
         for k in range(0, 6):
             for kind2, arg2 in (("zeroconf", [0]), ("zeroconf", [1, 0]), ("ensure", 7)):
-                out.append(dict(hosts=2, controls=[[1, "ensure", 1], [t, "shutdown_then", [k, kind2, arg2]],
-                                                   [t + 20001, "zeroconf", [0]], [t + 40001, "ensure", 9]],
-                                end=t + 120001, tag="shutdown-overlap/" + name, **base))
+                for extra in ([], [["connect", 0]] * 3):      # would a wrongly restarted connector get through?
+                    b = dict(base, dials=base["dials"] + extra)
+                    out.append(dict(hosts=2, controls=[[1, "ensure", 1], [t, "shutdown_then", [k, kind2, arg2]],
+                                                       [t + 20001, "zeroconf", [0]], [t + 40001, "ensure", 9]],
+                                    end=t + 120001, tag="shutdown-overlap/" + name, **b))
     return out
 
 
